@@ -560,4 +560,21 @@ def gen():
         return 'Definition gen_streamable_zips_in_arg_order : bool := true.\n' + zlist('gen_pull_order_zip', orders[0])
     emit(defs, 'gen_streamable_zips_in_arg_order', zip_order)
 
+    def ms_table():
+        f = find_function(ms, 'MultiStream.__init__')
+        loop = only([n for n in ast.walk(f) if isinstance(n, ast.For) and src_of(n.iter) == 'kwargs.items()'], 'for over kwargs')
+        srcs = [src_of(st) for st in loop.body]
+        if len(loop.body) != 2 or not isinstance(loop.body[0], ast.If) or not isinstance(loop.body[1], ast.If):
+            raise Unsupported('MultiStream.__init__ loop body is not the two ifs')
+        first = loop.body[0]
+        if not (src_of(first.test) == 'isinstance(value, BNPDataClass)' and not first.orelse and len(first.body) == 1
+                and src_of(first.body[0]) == 'value = NpDataclassStream([value], value.__class__)'):
+            raise Unsupported('an in-memory table is not wrapped as NpDataclassStream([value], value.__class__)')
+        second = loop.body[1]
+        if not (src_of(second.test) == 'isinstance(value, BnpStream)' and len(second.body) == 1
+                and src_of(second.body[0]) == 'self.__dict__[keyword] = SynchedStream(value, sequence_names)'):
+            raise Unsupported('a stream is not synchronised by SynchedStream(value, sequence_names)')
+        return 'Definition gen_ms_table_is_one_chunk_stream : bool := true.\n'
+    emit(defs, 'gen_ms_table_is_one_chunk_stream', ms_table)
+
     return 'bionumpy/genomic_data/genome_context.py, streams/multistream.py, streams/left_join.py, streams/groupby_func.py, genomic_data/genomic_track.py, genomic_data/genomic_intervals.py, computation_graph.py, streams/decorators.py, arithmetics/similarity_measures.py', defs
